@@ -243,6 +243,8 @@ class Call:
         if levels is None:
             categories = sorted(list(set(data)))
         else:
+            if set(levels) != set(data):
+                raise ValueError("The levels beign assigned and the levels in the data differ")
             categories = levels
 
         dtype = pd.api.types.CategoricalDtype(categories=categories, ordered=True)
